@@ -62,3 +62,35 @@ def parse_matlab_basis_sets(path):
     M = np.loadtxt(path.format('pr'))
     Mc = np.loadtxt(path.format(''))
     return M, Mc
+
+
+def save_npy_atomic(file_name, array):
+    """
+    Save an array to a ``.npy`` file such that other processes reading the file
+    at any moment see either its complete previous content (or no file) or its
+    complete new content, never a partially written file: the array is written
+    to a temporary file in the same directory, which then replaces the target.
+    (:func:`numpy.save` writes the header and the data with several system
+    calls, so two processes saving the same basis set while a third one loads
+    it could otherwise produce a formally valid file with wrong numbers.)
+
+    Parameters
+    ----------
+    file_name : str
+        path to the file, must end with ``.npy``
+    array : numpy array or array-like
+        data to save
+    """
+    import os
+    # (does not match "*.npy" masks used for finding basis files)
+    tmp_name = '{}.{}.tmp'.format(file_name, os.getpid())
+    try:
+        with open(tmp_name, 'wb') as f:
+            np.save(f, array)
+        os.replace(tmp_name, file_name)
+    except BaseException:
+        try:
+            os.remove(tmp_name)
+        except OSError:
+            pass
+        raise
